@@ -304,6 +304,32 @@ fn alignment_case(rep: &mut Report, rng: &mut Rng) {
     let n = rng.range(1, 8);
     let mut s = String::from("\"");
     for _ in 0..n {
+        if rng.chance(1, 3) {
+            // an escape with a random value: boundaries of the encoding lengths,
+            // surrogates and out-of-range values included (those must be errors)
+            let v: u32 = match rng.below(6) {
+                0 => *rng.pick(&[0u32, 0x7F, 0x80, 0xFF, 0x100, 0x7FF, 0x800, 0xD7FF, 0xD800, 0xDFFF, 0xE000, 0xFFFF, 0x10000, 0x10FFFF, 0x110000, 0xFFFFFF, 0x1000000]),
+                1 => rng.below(0x100) as u32,
+                2 => rng.below(0x800) as u32,
+                3 => rng.below(0x10000) as u32,
+                _ => rng.below(0x110000) as u32,
+            };
+            if elisp {
+                match rng.below(5) {
+                    0 => s.push_str(&format!("\\x{:x}", v)),
+                    1 => s.push_str(&format!("\\{:o}", v)),
+                    2 => s.push_str(&format!("\\u{:04x}", v & 0xFFFF)),
+                    3 => s.push_str(&format!("\\U{:08x}", v)),
+                    _ => s.push_str(&format!("\\N{{U+{:X}}}", v)),
+                }
+                if rng.bool() {
+                    s.push_str("\\ "); // escaped blank terminates a hex/octal escape
+                }
+            } else {
+                s.push_str(&format!("\\x{:x};", v));
+            }
+            continue;
+        }
         s.push_str(if elisp { *rng.pick::<&str>(pieces_el) } else { *rng.pick::<&str>(pieces_r6) });
     }
     s.push('"');
